@@ -465,6 +465,11 @@ void rcu_defer_unregister_thread(void)
 	_rcu_defer_barrier_thread();
 	free(URCU_TLS(defer_queue).q);
 	URCU_TLS(defer_queue).q = NULL;
+	/*
+	 * rcu_defer_barrier() snapshots each queue head into last_head.
+	 * Reset it so the thread can register again.
+	 */
+	URCU_TLS(defer_queue).last_head = 0;
 	is_empty = cds_list_empty(&registry_defer);
 	mutex_unlock(&rcu_defer_mutex);
 
